@@ -10,7 +10,10 @@ SESSION.json: {"cfg": {...}, "histories": [{"id", "ue", "org", "steps"}]}
         order of construction), per ([Lx, Ly, Lz] lattice periods, 0 = none:
         a DomainManager is passed to the Interpolator; all histories of such
         a session share ue and org)
-  a step = {"act", "src", "pts", "prop", "lin"} - the abstract state AFTER
+  a history has ue, org and fe (the user properties f, g are multiplied by
+        2^fe, results divided by it: exact)
+  a step = {"act", "src", "pts", "pass", "prop", "lin"} (pass: which of x, y,
+        z a Reset / SetPoints hands over; the others are omitted = 0) - AFTER
         the action (spec/Interp.tla part 6), integers on the lattice; a
         source array {"name", "props", "p"} gets exactly the user properties
         listed in props ("f", "g"); an Interpolate step calls
@@ -210,7 +213,9 @@ class Session(object):
         z = np.array([self.real(q['z'], self.org[2]) for q in p])
         h = np.array([math.ldexp(float(q['h']), self.ue) for q in p])
         # only the user properties the abstract array HAS exist on the real one
-        user = dict((key, g(key)) for key in a['props'])
+        # (their values scaled by the exact factor 2^fe of the history)
+        user = dict((key, np.array([math.ldexp(float(q[key]), self.fe)
+                                    for q in p])) for key in a['props'])
         pa = get_particle_array(name=a['name'], x=x, y=y, z=z, h=h,
                                 m=g('m'), rho=g('rho'), **user)
         if self.cfg['api'] == 'eval':
@@ -222,6 +227,17 @@ class Session(object):
         y = np.array([self.real(q['y'], self.org[1]) for q in pts])
         z = np.array([self.real(q['z'], self.org[2]) for q in pts])
         return x, y, z
+
+    def passed(self, s):
+        """Keyword arguments for set_interpolation_points / the constructor:
+        only the coordinates the step says are passed (s['pass']); an omitted
+        one is documented to be 0."""
+        x, y, z = self.coords(s['pts'])
+        kw = {}
+        for key, arr, flag in zip('xyz', (x, y, z), s['pass']):
+            if flag:
+                kw[key] = arr
+        return kw
 
     def make_dst(self, pts):
         x, y, z = self.coords(pts)
@@ -266,10 +282,9 @@ class Session(object):
                 periodic_in_x=bool(per[0]), periodic_in_y=bool(per[1]),
                 periodic_in_z=bool(per[2]))
         if cfg['api'] == 'interp':
-            x, y, z = self.coords(s['pts'])
-            self.obj = Interpolator(self.arrays, x=x, y=y, z=z,
-                                    kernel=kernel, method=cfg['method'],
-                                    domain_manager=dm)
+            self.obj = Interpolator(self.arrays, kernel=kernel,
+                                    method=cfg['method'], domain_manager=dm,
+                                    **self.passed(s))
             if self.obj.dim != cfg['dim']:
                 raise SystemExit('driver: Interpolator.dim = %r for a '
                                  'session of dim %r' % (self.obj.dim,
@@ -301,15 +316,13 @@ class Session(object):
             self.arrays = [self.make_array(a) for a in s['src']]
             if api == 'interp':
                 self.obj.update_particle_arrays(self.arrays)
-                x, y, z = self.coords(s['pts'])
-                self.obj.set_interpolation_points(x=x, y=y, z=z)
+                self.obj.set_interpolation_points(**self.passed(s))
             else:
                 self.dst = self.make_dst(s['pts'])
                 self.obj.update_particle_arrays(self.arrays + [self.dst])
         elif act == 'SetPoints':
             if api == 'interp':
-                x, y, z = self.coords(s['pts'])
-                self.obj.set_interpolation_points(x=x, y=y, z=z)
+                self.obj.set_interpolation_points(**self.passed(s))
             else:
                 self.dst = self.make_dst(s['pts'])
                 self.obj.update_particle_arrays(self.arrays + [self.dst])
@@ -327,8 +340,11 @@ class Session(object):
             self.obj.update()
         elif act == 'SetValues':
             for pa, a in zip(self.arrays, s['src']):
-                for key in ['m', 'rho'] + list(a['props']):
+                for key in ('m', 'rho'):
                     pa.get(key)[:] = [float(q[key]) for q in a['p']]
+                for key in a['props']:
+                    pa.get(key)[:] = [math.ldexp(float(q[key]), self.fe)
+                                      for q in a['p']]
             if any(cfg.get('per') or ()):
                 # periodic images are copies made by update(): refresh them
                 self.obj.update()
@@ -344,7 +360,8 @@ class Session(object):
         probe = cfg['kernel'] == 'probe'
         unnorm = cfg['method'] in ('sph', 'splash')
         # W_real = 4^ue W_lattice for the probe kernel
-        sh0 = -2 * self.ue if (probe and unnorm) else 0
+        # ... and every result carries the factor 2^fe of the field
+        sh0 = (-2 * self.ue if (probe and unnorm) else 0) - self.fe
         if cfg['api'] == 'eval':
             for pa in self.arrays:      # (the evaluator's user stages data)
                 pa.temp_prop[:] = pa.get(s['prop'])
@@ -360,7 +377,7 @@ class Session(object):
         comps = [np.atleast_1d(self.obj.interpolate(s['prop'],
                                                     comp=c)).ravel()
                  for c in range(4)]
-        return [[conv(comps[c][i], 0 if c == 0 else self.ue)
+        return [[conv(comps[c][i], (0 if c == 0 else self.ue) - self.fe)
                  for c in range(4)] for i in range(npts)]
 
 
@@ -383,6 +400,7 @@ def main():
     jr = open(fout + '.journal', 'a')
     for h in job['histories']:
         ses.ue = h['ue']
+        ses.fe = h.get('fe', 0)
         ses.org = h['org']
         steps = []
         prev = None
